@@ -34,9 +34,9 @@ def hist_of(state):
     return streams, hist
 
 
-def scen(run, name, streams, hist, sync, rotate_at=0, truncate=False, recycle=0, maint="", rotate_every=False, remove_after="", nowatch=False, fillers=0):
+def scen(run, name, streams, hist, sync, rotate_at=0, truncate=False, recycle=0, maint="", rotate_every=False, remove_after="", nowatch=False, fillers=0, lz4=False):
     return dict(run=run, name=name, sync=sync, streams=streams, hist=hist, rotate_at=rotate_at, truncate=truncate, recycle=recycle, maint=maint,
-                rotate_every=rotate_every, remove_after=remove_after, nowatch=nowatch, fillers=fillers)
+                rotate_every=rotate_every, remove_after=remove_after, nowatch=nowatch, fillers=fillers, lz4=lz4)
 
 
 def run(ctx):
@@ -181,6 +181,17 @@ def run(ctx):
         hist += [["save", 0], ["kill", 0], ["restart_nowait", 0], ["sleep", ctx.rng.randint(5, 140)]]
         hist += [["append", n1 + 1], ["append", n1 + 2], ["await_started", 0], ["open", 0]]
         scs.append(scen(k, "rotation-at-restart-%d" % k, ["a"] * (n1 + 2), hist, True, rotate_at=n1 + 1, nowatch=True, fillers=4000))
+        k += 1
+    # a compressed file (lz4 cannot seek: after the restart the reader skips forward to the saved offset by reading), killed after
+    # the first k lines were acknowledged and saved
+    for i in range(8 if thorough else 3):
+        n = ctx.rng.randint(6, 12)
+        kk = ctx.rng.randint(1, n - 2)
+        hist = []
+        for j in range(1, kk + 1):
+            hist += [["act", j], ["deliver", j], ["commit", j]]
+        hist += [["save", 0], ["kill", 0], ["restart", 0], ["open", 0]]
+        scs.append(scen(k, "compressed-%d" % k, ["a"] * n, hist, True, lz4=True))
         k += 1
     # truncated in place and rewritten SHORTER than the saved offsets while file.d is down: the file must be started over
     for i in range(4 if thorough else 2):
